@@ -56,15 +56,39 @@ def translate():
     return rc == 0, out.strip(), item
 
 
+_SNAP = None
+
+
+def _snapshot(path, name):
+    """Private copy of a freshly built binary (taken under the build lock): a later rebuild by another check — or by a
+    developer editing the model — cannot change what THIS run executes."""
+    global _SNAP
+    import atexit
+    import shutil
+    if _SNAP is None:
+        _SNAP = os.path.join(WORK, f"bin-{os.getpid()}")
+        os.makedirs(_SNAP, exist_ok=True)
+        atexit.register(shutil.rmtree, _SNAP, True)
+    dst = os.path.join(_SNAP, name)
+    shutil.copy2(path, dst)
+    return dst
+
+
 def build_worker():
+    global WORKER
     with Lock("build"):
         rc, out, dt = run(["cargo", "build", "--release", "--offline"], cwd=HARNESS)
+        if rc == 0:
+            WORKER = _snapshot(os.path.join(HARNESS, "target", "release", "rv-worker"), "rv-worker")
     return rc == 0, out, dt
 
 
 def build_driver():
+    global DRIVER
     with Lock("build"):
         rc, out, dt = run(["lake", "build", "RubatoModel", "rv-driver"], cwd=LEAN)
+        if rc == 0:
+            DRIVER = _snapshot(os.path.join(LEAN, ".lake", "build", "bin", "rv-driver"), "rv-driver")
     return rc == 0, out, dt
 
 
